@@ -568,6 +568,13 @@ func main(n : int) -> int {
     0
 }
 """ % "\n".join(calls), dict(shape=True, idx=True, expect_out="".join(P(v) for v in exp), expect_res="I0")))
+    # --- ranges chosen by a condition (both branches must be ranges of one dimension count; refused before repo fix b996419)
+    a, b, c, d = rng.range(0, 5), rng.range(6, 9), rng.range(10, 15), rng.range(1, 5)
+    out.append(("shape_range_cond", """
+func pickr(c : bool, i : int) -> int { let r = c ? [ %d .. %d ] : [ %d .. %d ]; r[i][0] }
+func pickb(c : bool, i : int) -> int { let r = if (c) { [ %d .. %d, 1 .. 2 ] } else { [ %d .. %d, 3 .. 4 ] }; let e = r[i, 1]; e[0] * 10 + e[1] }
+func main(n : int) -> int { print(pickr(true, 1)); print(pickr(false, 2)); print(pickb(true, 0)); print(pickb(false, 1)); 0 }
+""" % (a, b, c, d, a, b, c, d), dict(shape=True, idx=True, expect_out=P(a + 1) + P(c - 2) + P(a * 10 + 2) + P((c - 1) * 10 + 4), expect_res="I0")))
     # --- slice of a slice, both with variable bounds
     R, C = rng.range(3, 4), rng.range(3, 5)
     m = [[r * 10 + c + 5 for c in range(C)] for r in range(R)]
